@@ -760,6 +760,7 @@ pub type Log = Rc<RefCell<Vec<Value>>>;
 pub fn tok_json(t: &Token<'_>) -> Value {
     json!({
         "ty": t.token_type,
+        "sym": format!("#{}", t.token_type),
         "text": t.text(),
         "s": t.location.start,
         "e": t.location.end,
@@ -814,7 +815,7 @@ impl<'t> UserActionsTrait<'t> for RecActions {
             .iter()
             .map(|c| match c {
                 ParseTreeType::T(t) => {
-                    json!({"k":"t","ty":t.token_type,"text":t.text(),"s":t.location.start})
+                    json!({"k":"t","ty":t.token_type,"sym":format!("#{}", t.token_type),"text":t.text(),"s":t.location.start})
                 }
                 ParseTreeType::N(n) => json!({"k":"n","nt":n}),
             })
